@@ -156,6 +156,11 @@ func init() {
 		}
 		// corpus: texts that crashed the pinned tree
 		c.editorCase(kitchenSink, map[string]any{"edit": "corpus"})
+		// declarations in the middle of being typed: no name, no type, no origin arguments
+		for _, t := range []string{"vars { number = balance(@a, USD/2) }", "vars { account = meta(@a, \"k\") }", "vars { = balance(@a, USD) }", "vars { monetary $x = }",
+			"vars { monetary $x = balance( }", "vars { monetary = overdraft(@a, USD) }\nsend [USD 1] (source = @a destination = @b)", "vars { portion $p = meta(@a, ) }", "vars { $x }", "vars { string }"} {
+			c.editorCase(t, map[string]any{"edit": "corpus"})
+		}
 		for _, t := range []string{"vars { number = balance(@a, USD) }", "send [USD 10] (source = @world destination = {1/0 to @a remaining to @b})",
 			"send [USD 1] (source = @a destination = {08% to @a remaining to @b})", "vars { $x }", "vars { monetary", "send [", "set_tx_meta("} {
 			c.editorCase(t, map[string]any{"edit": "corpus"})
